@@ -41,7 +41,10 @@ func (c *vConn) Send(pkt packet.Generic, async bool) error {
 		return errVConnClosed
 	}
 	if c.faults && vFail("send") {
+		// like BaseConn: a failed write closes the carrier, a pending Receive fails
 		c.dead = true
+		c.closed = true
+		close(c.closeCh)
 		return errVConnFault
 	}
 	if c.encode {
